@@ -23,6 +23,10 @@ class PathLimit(Exception):
     pass
 
 
+class _Undetermined(Exception):
+    pass
+
+
 class Frame:
     def __init__(self, interp, module, func=None, locals_=None, cls_ns=None, parent=None):
         self.module = module
@@ -62,6 +66,9 @@ class Interp(OpsMixin, BuiltinsMixin):
         self.callstack = []
         self.watch = {}
         self.stubs = {}
+        self.no_decide = 0
+        self.loop_stack = []
+        self.dyn_syms = {}
         self.missing_modules = set()
         self.notes = []
         self.sym_counter = 0
@@ -146,6 +153,7 @@ class Interp(OpsMixin, BuiltinsMixin):
         self.journal = []
         self.callstack = []
         self.notes = []
+        self.loop_stack = []
 
     def rollback(self):
         for kind, obj, key, old in reversed(self.journal):
@@ -197,6 +205,8 @@ class Interp(OpsMixin, BuiltinsMixin):
 
     def decide(self, desc, node=None, frame=None):
         """an undetermined branch: fork"""
+        if self.no_decide:
+            raise _Undetermined()
         if self.loading and not self.exploring:
             # at import time: no forking; take True and note it
             self.notes.append(("import-time-undetermined", desc))
@@ -215,6 +225,7 @@ class Interp(OpsMixin, BuiltinsMixin):
 
     def event(self, kind, **kw):
         kw["kind"] = kind
+        kw["loops"] = list(self.loop_stack)
         kw["stack"] = [q for q, _ in self.callstack]
         self.events.append(kw)
 
@@ -621,9 +632,15 @@ class Interp(OpsMixin, BuiltinsMixin):
     def st_While(self, s, frame):
         n = 0
         while True:
-            # is the test static?
-            t = self.eval(s.test, frame)
-            tv = self.static_truth(t)
+            # is the test static?  (probe without forking)
+            self.no_decide += 1
+            try:
+                t = self.eval(s.test, frame)
+                tv = self.static_truth(t)
+            except _Undetermined:
+                tv = None
+            finally:
+                self.no_decide -= 1
             if tv is None:
                 if n == 0:
                     return self.summarise_loop(s, frame, test=s.test)
@@ -679,6 +696,7 @@ class Interp(OpsMixin, BuiltinsMixin):
         exit_kind = "fallthrough"
         depth = getattr(frame, "loop_depth", 0)
         frame.loop_depth = depth + 1
+        self.loop_stack.append(loop_id)
         try:
             self.exec_block(s.body, frame)
         except _Break:
@@ -686,12 +704,14 @@ class Interp(OpsMixin, BuiltinsMixin):
         except _Continue:
             exit_kind = "continue"
         except (_Return, PyRaise) as e:
+            self.loop_stack.pop()
             self.event("loop-body", loop=loop_id, node=s, head=head, pre=pre,
                        end=dict((n, frame.locals.get(n)) for n in head),
                        exit="return" if isinstance(e, _Return) else "raise",
                        test=test, where=frame.where(s), iterable=iterable)
             frame.loop_depth = depth
             raise
+        self.loop_stack.pop()
         frame.loop_depth = depth
         end = dict((n, frame.locals.get(n)) for n in names if n in frame.locals)
         self.event("loop-body", loop=loop_id, node=s, head=head, pre=pre, end=end,
@@ -721,7 +741,9 @@ class Interp(OpsMixin, BuiltinsMixin):
         """head-of-loop abstraction of a loop-carried variable"""
         if isinstance(v, View):
             base = ("loop", loop_id, name, v.lo)
-            return View(v.root, lo=(base, 0), hi=v.hi, hi_val=v.hi_val)
+            nv = View(v.root, lo=(base, 0), hi=v.hi, hi_val=v.hi_val)
+            nv.end = getattr(v, "end", None)
+            return nv
         if isinstance(v, list):
             return v  # summary list: appended elements stand for 0..n
         if isinstance(v, dict):
@@ -742,7 +764,10 @@ class Interp(OpsMixin, BuiltinsMixin):
         if isinstance(cur, View):
             if isinstance(pre, View):
                 base = ("after", loop_id, name)
-                return View(cur.root, lo=(base, 0), hi=pre.hi, hi_val=pre.hi_val)
+                nv = View(cur.root, lo=(base, 0), hi=pre.hi, hi_val=pre.hi_val)
+                nv.end = getattr(pre, "end", None)
+                nv.after_of = pre
+                return nv
             return cur
         if isinstance(cur, (list, dict)):
             return cur
